@@ -39,8 +39,11 @@ def _case(draw):
                 node = tdoc.raw(src, '!prev')
                 key = 'moved'
             d['items'] = [kv for kv in d['items'] if kv[0] != key] + [[key, node]]
-    chain = draw(st.lists(st.sampled_from(STR_KEYS + [0, 1]), min_size=1, max_size=3))
-    chain[0] = draw(st.sampled_from(STR_KEYS))    # a document root is a mapping with arbitrary keys; ints are fine deeper too
+    has_prev = any(n.get('tag') == '!prev' for d in docs for _, n in tdoc.walk(d))
+    # wrapping keys: the documents' own alphabet, plus (unless a !prev path would have to spell them) keys that are not plain names
+    exotic = [] if has_prev else ['my-key', 'a.b', 'model v2', 'x[0]', '0']
+    chain = draw(st.lists(st.sampled_from(STR_KEYS + [0, 1] + exotic), min_size=1, max_size=3))
+    chain[0] = draw(st.sampled_from(STR_KEYS + exotic))    # a document root is a mapping with arbitrary keys; ints are fine deeper too
     sib = None
     if draw(st.integers(0, 2)) == 0:
         sdocs = draw(S.tagged_stages(min_stages=1, max_stages=len(docs), notnew=False, density=3, max_leaves=5))
@@ -117,6 +120,8 @@ def run_case(case):
     wrapped = _build(wtexts)
     nt, labels = classify(docs)
     labels.add('chain=%d' % len(chain))
+    if any(isinstance(k, str) and not k.replace('_', 'a').isalnum() for k in chain):
+        labels.add('non-identifier-wrapping-key')
     labels.add('base-' + base[0])
     src = '\nunwrapped sources:\n' + '\n'.join(texts) + '\nwrapped sources:\n' + '\n'.join(wtexts)
 
